@@ -28,7 +28,7 @@ package runtime
 // VERIF_MAP="pc=<hex>,ev=<n>,rot=<r>[;pc=...,ev=...,rot=...][;h=<seed>]"
 //   default: every range over a map starts at bucket 0 / offset 0 and every map has hash seed 0.
 //   pc/ev/rot: the ev-th range (ev=0: every range) executed at return address pc starts at r.
-// VERIF_MAPDUMP=<fd>: the first 8 range events of every site are logged as "S <pc> <n> <B>\n".
+// VERIF_MAPDUMP=<fd>: the first 8 range events of every site are logged as "S <pc> <n> <B> <entries>\n".
 
 type verifRule struct {
 	pc  uintptr
@@ -182,6 +182,8 @@ func verifMapStart(pc uintptr, h *hmap) uintptr {
 		buf = verifPutHex(buf, uintptr(n))
 		buf = append(buf, ' ')
 		buf = verifPutHex(buf, uintptr(h.B))
+		buf = append(buf, ' ')
+		buf = verifPutHex(buf, uintptr(h.count))
 		buf = append(buf, '\n')
 		write(uintptr(fd), unsafe.Pointer(&buf[0]), int32(len(buf)))
 	}
